@@ -16,6 +16,7 @@ type Case struct {
 	Lookalike bool   `json:"lookalike"`
 	Lookups   []B    `json:"lookups,omitempty"`
 	NoParse   bool   `json:"noparse,omitempty"`
+	Late      bool   `json:"late,omitempty"` // group entries are added to their group before they are populated
 }
 
 type ParseObs struct {
@@ -121,7 +122,9 @@ func RunCase(c *Case) (*CaseObs, error) {
 	}
 	o.Parse, o.Nonstrict = emptyParse(tgt), emptyParse(tgt)
 
+	LateEntries = c.Late
 	msg, err := Build(&c.M, false)
+	LateEntries = false
 	if err != nil {
 		return nil, fmt.Errorf("case %s: %v", c.ID, err)
 	}
@@ -388,4 +391,11 @@ func RunValueOps(id, ty string, ops []ValOp) (*ValueObs, error) {
 		o.Obs = append(o.Obs, ob)
 	}
 	return o, nil
+}
+
+func encodingUnmarshal(target *fix.Message, wire []byte, strict bool) error {
+	if strict {
+		return encoding.Unmarshal(target, wire)
+	}
+	return encoding.DefaultUnmarshaller{Strict: false, Validator: encoding.DefaultValidator{}}.Unmarshal(target, wire)
 }
